@@ -51,14 +51,18 @@ macro_rules! split_concat {
                 assert!(h.len() == $k && t.len() == $n - $k, "split halves have the wrong lengths");
                 if sz > 0 && $k > 0 { assert!(h.as_ptr() as usize == base, "first half does not start at the array"); }
                 if sz > 0 && $n - $k > 0 { assert!(t.as_ptr() as usize == base + $k * sz, "second half not adjacent to the first"); }
-                if $n > 0 { if i < $k { assert!(h[i].same(&src[i])); } else { assert!(t[i - $k].same(&src[i])); } }
+                // every element, by concrete index: Kani 0.68 reports a spurious counterexample (not reproducible natively, nor under Miri)
+                // for a *symbolic* index into a reinterpreted reference at a non-zero offset when the elements are themselves arrays
+                let mut j = 0;
+                while j < $n { if j < $k { assert!(h[j].same(&src[j]), "by-reference split: head element wrong"); } else { assert!(t[j - $k].same(&src[j]), "by-reference split: tail element wrong"); } j += 1; }
             }
             {
                 let (h, t): (&mut GenericArray<$T, $K>, &mut GenericArray<$T, _>) = Split::<$T, $K>::split(&mut a);
                 assert!(h.len() == $k && t.len() == $n - $k);
                 if sz > 0 && $k > 0 { assert!(h.as_ptr() as usize == base); }
                 if sz > 0 && $n - $k > 0 { assert!(t.as_ptr() as usize == base + $k * sz); }
-                if $n > 0 { if i < $k { assert!(h[i].same(&src[i])); } else { assert!(t[i - $k].same(&src[i])); } }
+                let mut j = 0;
+                while j < $n { if j < $k { assert!(h[j].same(&src[j]), "by-reference split (mut): head element wrong"); } else { assert!(t[j - $k].same(&src[j]), "by-reference split (mut): tail element wrong"); } j += 1; }
             }
             // by value: split_at(K) then extend
             let (h, t): (GenericArray<$T, $K>, _) = Split::<$T, $K>::split(a);
